@@ -197,7 +197,11 @@ fn run<C: Cs>(ctx: &Ctx, idx: u64, part: usize, parts: usize) {
         return;
     };
     let other = Setup::<C>::new(ctx, 1);
-    let starts: Vec<Integer> = vec![Integer::from(0), Integer::from(1), (Integer::from(1) << (C::le - 1)) + 1u32, rand_int_bits(&mut r, 256)];
+    // lower bounds: zero, small, huge, random - and negative ones (the interval may lie below or straddle zero)
+    let starts: Vec<Integer> = vec![
+        Integer::from(0), Integer::from(1), (Integer::from(1) << (C::le - 1)) + 1u32, rand_int_bits(&mut r, 256),
+        Integer::from(-1), Integer::from(-1000), Integer::from(-(Integer::from(1) << 64u32)), Integer::from(-rand_int_bits(&mut r, 256)),
+    ];
     let mut widths: Vec<Integer> = vec![1u32, 2, 3, 4, 255, 256].into_iter().map(Integer::from).collect();
     widths.push(Integer::from(1) << 64);
     widths.push((Integer::from(1) << 256) - 1u32);
@@ -265,6 +269,84 @@ fn volume<C: Cs>(ctx: &Ctx, idx: u64, count: usize) {
     ctx.count("volume_proofs_with_a_short_challenge(<=248 bits)", short.load(std::sync::atomic::Ordering::Relaxed));
 }
 
+/// A prover that does not follow the protocol: it knows an out-of-range x and the opening of its commitment, picks
+/// the square parts of the two decompositions freely (remainders may be negative) and lets the library's own
+/// sub-provers do the rest (hook `hook_prove_with_decomposition`, feature verif_hooks). The verifier must refuse.
+/// Control: the same hook with the honest decomposition of an in-range value must be accepted.
+fn cheating_prover<C: Cs>(ctx: &Ctx, idx: u64) {
+    let mut r = ctx.rng("c16c", idx);
+    let Some(st) = Setup::<C>::new(ctx, 1) else {
+        ctx.inconclusive("C16: key generation panicked (C18's business)");
+        return;
+    };
+    let (g, h, n) = (st.cpk.g_bases[0].clone(), st.cpk.h.clone(), st.cpk.N.clone());
+    let one = Integer::from(1);
+    let intervals: Vec<(Integer, Integer)> = vec![
+        (Integer::from(0), (one.clone() << 256u32) - 1u32),
+        (Integer::from(0), Integer::from(255)),
+        (Integer::from(1000), Integer::from(2000)),
+        (Integer::from(18), Integer::from(120)),
+        (one.clone() << 64u32, (one.clone() << 64u32) + (one.clone() << 32u32)),
+        ((one.clone() << (C::le - 1)) + 1u32, (one.clone() << C::le) - 1u32),
+        (Integer::from(-1000), Integer::from(24)),
+    ];
+    for (a, b) in intervals {
+        let (t, aa, bb) = tol(&a, &b);
+        let w = Integer::from(&b - &a);
+        let icase = format!("{}/cheat/[{}b,+{}b]", C::NAME, a.significant_bits(), w.significant_bits());
+        // what the larger-interval sub-prover can still answer for: |remainder| well below 2^(T+l) * b
+        let cap = Integer::from(&b.clone().abs().max(one.clone()) << (t + L_ - 3));
+        let mut targets: Vec<(&str, Integer)> = vec![
+            ("control:a", a.clone()), ("control:b", b.clone()), ("control:mid", Integer::from(&a + Integer::from(&w / 2u32))),
+            ("a-1", Integer::from(&a - 1u32)), ("a-2", Integer::from(&a - 2u32)), ("a-2^20", Integer::from(&a - (one.clone() << 20u32))),
+            ("a-width", Integer::from(&a - &w)), ("b+1", Integer::from(&b + 1u32)), ("b+2", Integer::from(&b + 2u32)),
+            ("b+2^20", Integer::from(&b + (one.clone() << 20u32))), ("b+width", Integer::from(&b + &w)), ("2b+1", Integer::from(&b * 2u32) + 1u32),
+        ];
+        targets.push(("a-random64", Integer::from(&a - rand_int_bits(&mut r, 64))));
+        targets.push(("b+random64", Integer::from(&b + rand_int_bits(&mut r, 64))));
+        for (tn, x) in targets {
+            let case = format!("{}/{}", icase, tn);
+            ctx.distinct(&case);
+            let control = tn.starts_with("control");
+            let xp = Integer::from(&x << t);
+            let xa = Integer::from(&xp - &aa);
+            let xb = Integer::from(&bb - &xp);
+            let sq = |v: &Integer| if *v >= 0 { v.clone().sqrt() } else { Integer::from(0) };
+            let (sa, sb) = (sq(&xa), sq(&xb));
+            let (ra, rb) = (Integer::from(&xa - sa.clone().pow(2)), Integer::from(&xb - sb.clone().pow(2)));
+            if ra.clone().abs() > cap || rb.clone().abs() > cap {
+                ctx.count("cheating_targets_beyond_the_sub_prover's_reach", 1);
+                continue;
+            }
+            let rr = rand_int_bits(&mut r, C::ln);
+            let c = CL03Commitment { value: commit(&x, &rr, &g, &h, &n), randomness: rr };
+            let p = ctx.call("Boudot::hook_prove_with_decomposition", &case, None, || Ok::<_, ()>(Rp::hook_prove_with_decomposition::<Sha256>(&x, &c, &g, &h, &n, &a, &b, &sa, &sb)));
+            let Some(p) = p.value else {
+                if control {
+                    ctx.inconclusive("C16: the cheating-prover hook failed on an honest decomposition (harness / hook problem)");
+                }
+                ctx.count("cheating_prover_could_not_build_a_proof", 1);
+                continue;
+            };
+            let v = ctx.call("Boudot::verify", &case, None, || Ok::<_, ()>(p.verify::<Sha256>(&g, &h, &n, &a, &b)));
+            if control {
+                if v.value == Some(true) {
+                    ctx.count("cheating_prover_controls_accepted", 1);
+                } else {
+                    ctx.inconclusive("C16: the cheating-prover hook's honest control was rejected (harness / hook problem)");
+                }
+                continue;
+            }
+            ctx.count("cheating_prover_proofs_submitted", 1);
+            if v.value == Some(true) {
+                ctx.violation(&format!("C16:out-of-range-value-proved-by-cheating-prover/{}", tn.trim_end_matches(char::is_numeric).trim_end_matches("random")),
+                    json!({"case":case,"a":ihex(&a),"b":ihex(&b),"x":ihex(&x),"x_minus_a":Integer::from(&x - &a).to_string(),"x_minus_b":Integer::from(&x - &b).to_string(),
+                           "remainder_a_bits":ra.significant_bits(),"remainder_a_negative":ra < 0,"remainder_b_bits":rb.significant_bits(),"remainder_b_negative":rb < 0}));
+            }
+        }
+    }
+}
+
 pub fn scenarios(ctx: &Ctx) -> Vec<Scenario> {
     use zkryptium::cl03::ciphersuites::{CL1024Sha256, CL2048Sha256};
     let mut v = Vec::new();
@@ -274,6 +356,9 @@ pub fn scenarios(ctx: &Ctx) -> Vec<Scenario> {
     }
     for p in 0..parts {
         v.push(scenario(format!("CL1024/part{p}"), move |c| run::<CL1024Sha256>(c, p as u64, p, parts)));
+    }
+    for i in 0..ctx.t(1u64, 4u64) {
+        v.push(scenario(format!("CL1024/cheating-prover{i}"), move |c| cheating_prover::<CL1024Sha256>(c, 700 + i)));
     }
     let count = ctx.t(1500usize, 12000usize);
     v.push(scenario("CL1024/volume", move |c| volume::<CL1024Sha256>(c, 900, count)));
